@@ -30,7 +30,11 @@ SPEC = {
               "16": "autoTableLayout's column widths or used table width differ from the float32 model run on the preferred widths the implementation computed",
               "17": "the preferred widths satisfy the hypotheses of C13_auto_layout_fills but columns + total spacing differ from the used table width",
               "18": "table split across pages: after the whole document is laid out, the ColumnPositions of the fragment on one page are not the column positions of that fragment's own content box and column widths",
-              "19": "table split across pages: a cell of a fragment is not on the columns of its fragment (PositionX / width / border-box width)"},
+              "19": "table split across pages: a cell of a fragment is not on the columns of its fragment (PositionX / width / border-box width)",
+              "20": "auto layout: a laid-out cell has a negative used content width (its columns are narrower than its own padding + borders)",
+              "21": "auto layout: a cell's used content width is smaller than the min-content width of its content (the widest word it holds, from the generator's specification of the document)",
+              "22": "a width / position / size of the laid-out table, of the preferred widths or of what autoTableLayout / fixedTableLayout returned is NaN or infinite (not representable as Q: the table is reported, never skipped)",
+              "23": "fixed layout: a laid-out cell has a negative used content width"},
     "theorems_for_kind": {
         "fixed": "C13_fixed_layout_fills", "corpus-fixed": "C13_fixed_layout_fills",
         "fixed-grid": "C13_table_grid / C13_slots / C13_group_without_rowspan_packed", "layout-grid": "C13_table_grid / C13_slots / C13_group_without_rowspan_packed",
@@ -41,6 +45,11 @@ SPEC = {
         "corpus-paged-horiz": "C13_fragments_positions / C13_fragment_column_positions / C13_cell_horizontal",
         "layout-horiz": "C13_column_positions / C13_cell_horizontal / C13_columns_adjacent / C13_columns_disjoint",
         "layout-vert": "C13_rowspan_heights_spec", "layout-widths": "C13_auto_layout_contract_partial (hypotheses of the grid theorems)",
+        "layout-cells": "C13_cell_content_fits (a cell on columns sized for its outer min-content width holds its content; no negative used width)",
+        "corpus-cells": "C13_cell_content_fits",
+        "layout-nonfinite": "C13_auto_layout_fills / C13_column_positions (finite inputs give finite widths and positions: every value of the model is a Q)",
+        "paged-nonfinite": "C13_fragment_column_positions", "fixed-nonfinite": "C13_fixed_layout_fills", "corpus-nonfinite": "C13_auto_layout_fills",
+        "corpus-paged-nonfinite": "C13_fragment_column_positions", "corpus-fixed-nonfinite": "C13_fixed_layout_fills",
         "corpus-horiz": "C13_cell_horizontal", "corpus-vert": "C13_rowspan_heights_spec", "corpus-widths": "C13_auto_layout_contract_partial",
     },
     "rule": "SplitMix64-seeded tables: 1-3 row groups (thead/tbody/tfoot in any document order) x 1-4 rows x 0-6 cells, colspan 1-4, rowspan 0/2/3/5 (overflowing the group); "
@@ -67,8 +76,11 @@ MANIFEST = {
             "instance of the same definitions is compared bit for bit with /repo on generated tables on every run, and the GridX / Colspan / Rowspan of every cell "
             "with the slot model run on the document's table structure (nothing read back from the implementation); autoTableLayout and distributeExcessWidth are modelled given the preferred widths "
             "(theorem: columns + total spacing = used width in every branch; refutation: used width >= specified width) and compared bit for bit with /repo; "
-            "the preferred widths themselves are only checked against the contract predicate (columns + spacing = used width >= specified width, no negative width).",
-    "note": "Partial: tableAndColumnsPreferredWidths is not modelled (C13_auto_layout_contract_statement stays a statement about the whole algorithm), two known findings (spacing of "
+            "the preferred widths themselves are only checked against the contract predicate (columns + spacing = used width >= specified width, no negative width) "
+            "and through the cells they produce: every laid-out cell must have a non-negative used content width and, in the auto layout, at least the width of the widest word it holds "
+            "(theorem C13_cell_content_fits: equivalent to its columns covering its outer min-content width, both used borders included; collapsed-border tables with per-side border widths are generated for it); "
+            "a NaN or infinite width / position anywhere in a laid-out table is a violation (never skipped).",
+    "note": "Partial: tableAndColumnsPreferredWidths is not modelled (C13_auto_layout_contract_statement stays a statement about the whole algorithm), known findings (negative cell width in the fixed layout; cells below their min-content width with percentage columns or under a colspan over px columns; spacing of "
             "columns without originating cell, in the preferred widths; table shrunk below its specified width, proved of the model: C13_auto_layout_keeps_specified_width_refuted). Full pairwise disjointness of slots is refuted for colspan-over-rowspan "
             "markup (see C09). Vertical theorems cover separated and collapsed borders alike but not baseline alignment, RTL, or the vertical geometry / row distribution of tables split across pages (the horizontal geometry of every page's fragment is modelled: slice headers into a store, C13_fragments_positions). "
             "Trusted: Coq kernel (vm_compute), F32 rounding model, harness projection, hooks html/layout/verif_export_c13.go, html/layout/verif_export_c13_auto.go.",
